@@ -64,7 +64,8 @@ def worker_main(arg):
     load_registry()
     prop, tier = job['prop'], job['tier']
     reg = REGISTRY[prop]
-    wcls = world_class(reg['world'])
+    wspec = job.get('world') or reg['world']
+    wcls = world_class(wspec)
     findings = kernel.load_known_findings()
     hashseed = os.environ.get('PYTHONHASHSEED', '?')
     out = {'runs': 0, 'steps': 0, 'stats': {}, 'digests': [], 'state_hashes': [], 'violations': [],
@@ -74,7 +75,7 @@ def worker_main(arg):
     seen_sigs = set()
     t0 = time.time()
     for idx in range(job['start'], job['start'] + job['count']):
-        seed = derive(job['verif_seed'], reg['world'], idx) % (1 << 53)
+        seed = derive(job['verif_seed'], wspec, idx) % (1 << 53)
         try:
             res = run_world(wcls, seed, prop, tier)
         except Exception:
@@ -128,7 +129,7 @@ def worker_main(arg):
             if rr.violation is None:
                 raise HarnessError('violation does not reproduce from its own recorded steps: %s' % vj)
             vj2 = rr.violation.to_json()
-            path = kernel.write_replay(prop, wcls.name, seed, hashseed, res.config, rr.steps, vj2, rr.digest,
+            path = kernel.write_replay(prop, wspec, seed, hashseed, res.config, rr.steps, vj2, rr.digest,
                                        {'steps': len(res.steps), 'replays_used': used}, tier)
             rec['replay'] = path
             rec['violation'] = vj2
@@ -156,7 +157,7 @@ def replay_main(prop, path, quiet=False):
     setup_repo_import()
     load_registry()
     reg = REGISTRY[doc['property']]
-    wcls = world_class(reg['world'])
+    wcls = world_class(doc['world'] if ':' in str(doc.get('world')) else reg['world'])
     res = run_world(wcls, doc['seed'], doc['property'], doc.get('tier', 'quick'), cfg=doc['config'],
                     steps=doc['steps'], keep_log=True)
     v = res.violation
@@ -180,22 +181,26 @@ def check_main(prop, tier, verif_seed, runs_override=None, workers=None):
         return 2
     reg = REGISTRY[prop]
     t0 = time.time()
-    runs = runs_override or reg[tier]
-    nbatch = reg.get('batches', {}).get(tier) or (32 if tier == 'quick' else 128)
-    nbatch = max(1, min(nbatch, runs))
-    per = (runs + nbatch - 1) // nbatch
+    parts = reg.get('parts') or [{'world': reg['world'], 'quick': reg['quick'], 'thorough': reg['thorough']}]
     workers = workers or int(os.environ.get('VERIF_WORKERS', '0')) or min(16, os.cpu_count() or 4)
     tmpdir = tempfile.mkdtemp(prefix='simfim-out-')
     jobs = []
-    start = 0
-    for bidx in range(nbatch):
-        cnt = min(per, runs - start)
-        if cnt <= 0:
-            break
-        jobs.append({'prop': prop, 'tier': tier, 'verif_seed': verif_seed, 'batch': bidx, 'start': start,
-                     'count': cnt, 'out': os.path.join(tmpdir, 'b%d.json' % bidx),
-                     'timeout': reg.get('worker_timeout', {}).get(tier, 900 if tier == 'quick' else 7200)})
-        start += cnt
+    bidx = 0
+    for part in parts:
+        runs = runs_override or part[tier]
+        nbatch = part.get('batches', {}).get(tier) or (32 if tier == 'quick' else 128)
+        nbatch = max(1, min(nbatch, runs))
+        per = (runs + nbatch - 1) // nbatch
+        start = 0
+        for _ in range(nbatch):
+            cnt = min(per, runs - start)
+            if cnt <= 0:
+                break
+            jobs.append({'prop': prop, 'tier': tier, 'verif_seed': verif_seed, 'batch': bidx, 'start': start,
+                         'count': cnt, 'out': os.path.join(tmpdir, 'b%d.json' % bidx), 'world': part['world'],
+                         'timeout': reg.get('worker_timeout', {}).get(tier, 900 if tier == 'quick' else 7200)})
+            start += cnt
+            bidx += 1
     pending = list(jobs)
     running = []
     results = []
